@@ -15,8 +15,10 @@
 (*  det : the same value was built and encoded in 20 fresh runs: nenc      *)
 (*        distinct encodings.                                              *)
 (*  dec : bytes b were decoded into type ty (acc), re-encoded (same, re,   *)
-(*        nre), decoded by the generic decoder (gacc), driven through the  *)
-(*        entry points (ent), with allocation and panic recorded.          *)
+(*        nre), decoded as the first value of a stream the way p2p's       *)
+(*        Msg.Decode and the database readers do (sacc, scons bytes        *)
+(*        consumed, ssame), decoded by the generic decoder (gacc), driven  *)
+(*        through the entry points (ent), with allocation and panic.       *)
 (*  gen : bytes b were decoded by the generic decoder only.                *)
 (***************************************************************************)
 EXTENDS Rlp
@@ -61,8 +63,17 @@ AcceptV(e, s, p, ln) ==
    IF e.acc /\ e.pan = "" /\ ~(e.same /\ e.nre = 1 /\ p.ok /\ Match(s, p.it, TRUE))
    THEN {<<"AcceptImpliesCanonical", Class(e.ty, s, p), ln>>} ELSE {}
 
-DecV(e, ln) == LET s == Schema(e.ty) p == Parse(e.b) IN
-   PanicV(e, ln) \cup AllocV(e, ln) \cup GenericV(e, p, ln) \cup AcceptV(e, s, p, ln)
+\* the same sentence for the stream form of decoding (network messages, database records): the bytes CONSUMED are the
+\* encoding of a value and the value re-encodes to them
+StreamV(e, s, d, ln) ==
+   IF e.sacc /\ e.pan = "" /\ ~(e.ssame /\ d.ok /\ d.nx = e.scons + 1 /\ Match(s, d.it, TRUE))
+   THEN {<<"AcceptImpliesCanonical", {"stream"} \cup Class(e.ty, s, d), ln>>} ELSE {}
+
+DecV(e, ln) == LET s == Schema(e.ty)
+                   d == ParseFirst(e.b)                                     \* first item
+                   p == IF d.ok /\ d.nx = Len(e.b) + 1 THEN d ELSE BadDec   \* = Parse(e.b)
+               IN
+   PanicV(e, ln) \cup AllocV(e, ln) \cup GenericV(e, p, ln) \cup AcceptV(e, s, p, ln) \cup StreamV(e, s, d, ln)
    \cup UNION { EntryV(e, s, p, e.ent[i], ln) : i \in DOMAIN e.ent }
 
 GenV(e, ln) == PanicV(e, ln) \cup AllocV(e, ln) \cup GenericV(e, Parse(e.b), ln)
@@ -90,7 +101,7 @@ Judge(e, ln) == CASE e.ev = "dec" -> DecV(e, ln)
 Fire(e) == [k \in Clauses |->
    CASE k = "RoundTrip" -> IF e.ev = "rt" THEN 1 ELSE 0
      [] k = "EncodeDeterministic" -> IF e.ev = "det" THEN 1 ELSE 0
-     [] k = "AcceptImpliesCanonical" -> IF e.ev = "dec" /\ e.acc THEN 1 ELSE 0
+     [] k = "AcceptImpliesCanonical" -> IF e.ev = "dec" THEN (IF e.acc THEN 1 ELSE 0) + (IF e.sacc THEN 1 ELSE 0) ELSE 0
      [] k = "GenericAgrees" -> IF e.ev \in {"dec", "gen"} THEN 1 ELSE 0
      [] k = "NoPanic" -> IF e.ev \in {"dec", "gen", "rt", "det"} THEN 1 ELSE 0
      [] k = "RejectNotCrash" -> IF e.ev = "dec" THEN Len(e.ent) ELSE 0
